@@ -83,6 +83,14 @@ def run_case(desc):
     contracts.drain()
     cyc = 0
     stop = None
+    # caller-owned per-sample arrays that a loop naturally reuses in every cycle (density weights, sample weights)
+    qp = poolcase.query_params(e)
+    reuse = {}
+    if (desc["seed"] >> 13) % 3 == 0:
+        if "utility_weight" in qp:
+            reuse["utility_weight"] = np.round(rng.rand(c.n) + 0.5, 2)
+        if "sample_weight" in qp:
+            reuse["sample_weight"] = np.round(rng.rand(c.n) + 0.2, 2)
     while np.isnan(y).any():
         if cyc >= expected_cycles + 3:
             stop = "too-many-cycles"
@@ -91,7 +99,7 @@ def run_case(desc):
         unl = set(np.flatnonzero(np.isnan(y)).tolist())
         steps.begin()
         try:
-            idx = qs.query(X=c.X.copy(), y=y.copy(), batch_size=bs, **kw)
+            idx = qs.query(X=c.X.copy(), y=y.copy(), batch_size=bs, **kw, **reuse)
         except steps.StepBudgetExceeded as ex:
             viol.append({"component": e.cls.__name__, "kind": "step-budget-exceeded", "detail": "cycle %d: %s" % (cyc, ex)})
             stop = "exception"
